@@ -45,11 +45,10 @@ Definition atomic (b : bus) (c : N) (unfailed failed : outcome) : Prop :=
   failed = unfailed \/ nothing_happened b c failed.
 
 (* "succeeds when retried with memory available": after an attempt that
-   reported NoMemory (and is not simply what the request does anyway), the
-   request - now without failures - does what it would have done had the
-   failed attempt never been made *)
+   reported NoMemory, the request - now without failures - does what it would
+   have done had the failed attempt never been made *)
 Definition retry_ok (b : bus) (c : N) (e : event) (failed : outcome) : Prop :=
-  forall b', failed = OOk b' [(c, MError ENoMemory)] -> failed <> step b e ->
+  forall b', failed = OOk b' [(c, MError ENoMemory)] ->
     same_outcome (step b' e) (step b e) /\ step b e <> OStop.
 
 (* messages are never delivered in part: whatever the state does, the clients
